@@ -4,10 +4,12 @@
     Passes.optimize_opt) is an equation of the evaluator - same value, same type, same state, hence
     same output, assignments and trace movements - for any state and any sub-evaluator that returns
     literals unchanged; a folded operand list consists of literals only, so no side-effecting
-    sub-expression is ever dropped or reordered by a rule.  Not proved: the congruence step (a
-    rewritten sub-expression inside an arbitrary program, including code captured in closures and
-    quoted data that is evaluated later); products with float literals (1*f = f in IEEE arithmetic).
-    These are decided by the differential check (with vs without the pass, exhaustive small trees). *)
+    sub-expression is ever dropped or reordered by a rule; the congruence step for the fragments of
+    OptRo.v / OptLet.v (read-only operators, let/set/while/print at any depth); quoted data is left alone
+    and nothing but the listed shapes is rewritten (QuoteProofs.v, OptOnly.v).  Not proved: the congruence
+    step for code captured in closures and quoted data that is evaluated later; products with float
+    literals (1*f = f in IEEE arithmetic).  These are decided by the differential check (with vs without
+    the pass, exhaustive small trees). *)
 From WalModel Require Import Eval.
 From WalModel.proofs Require Import EvalArith OptProofs.
 Local Open Scope Z_scope.
@@ -147,3 +149,50 @@ Example a_program_with_binders :
                        WL [VOp OPrint; VStr "ab"; VSym "n" None]];
                    VSym "n" None].
 Proof. split; reflexivity. Qed.
+
+(** quoted data is never rewritten by the pass, whatever it contains *)
+From WalModel.proofs Require QuoteProofs.
+Theorem optimize_leaves_quoted_data_alone : forall w args,
+  optimize (VList w (VOp OQuote :: args)) = VList w (VOp OQuote :: args) /\
+  optimize (VList w (VOp OQuasiquote :: args)) = VList w (VOp OQuasiquote :: args).
+Proof. exact QuoteProofs.optimize_leaves_quoted. Qed.
+Print Assumptions optimize_leaves_quoted_data_alone.
+
+(** * nothing else is rewritten *)
+From WalModel.proofs Require OptOnly.
+Theorem the_pass_at_a_node : forall o args,
+  o <> OQuote -> o <> OQuasiquote -> o <> OAnd -> o <> OOr ->
+  optimize_opt (VList true (VOp o :: args)) =
+  match map_opt optimize_opt args with
+  | Some args' => optimize_node true o (VOp o :: args')
+  | None => None
+  end.
+Proof. exact OptOnly.optimize_at_a_node. Qed.
+Print Assumptions the_pass_at_a_node.
+Theorem other_operators_are_left_alone : forall w o l',
+  o <> OIf -> o <> ODo -> o <> OAdd -> o <> OMul -> optimize_node w o l' = Some (VList true l').
+Proof. exact OptOnly.other_operators_untouched. Qed.
+Print Assumptions other_operators_are_left_alone.
+Theorem an_if_with_a_nonliteral_condition_is_left_alone : forall w h c rest,
+  is_lit c = false -> optimize_node w OIf (h :: c :: rest) = Some (VList true (h :: c :: rest)).
+Proof. exact OptOnly.if_with_nonliteral_condition_untouched. Qed.
+Print Assumptions an_if_with_a_nonliteral_condition_is_left_alone.
+Theorem a_do_with_several_operands_is_left_alone : forall w l',
+  List.length l' <> 2%nat -> optimize_node w ODo l' = Some (VList true l').
+Proof. exact OptOnly.do_with_several_operands_untouched. Qed.
+Print Assumptions a_do_with_several_operands_is_left_alone.
+Theorem a_plus_with_mixed_operands_is_left_alone : forall w l',
+  forallb is_num_lit (tl l') = false -> forallb is_str_lit (tl l') = false ->
+  optimize_node w OAdd l' = Some (VList true l').
+Proof. exact OptOnly.plus_with_mixed_operands_untouched. Qed.
+Print Assumptions a_plus_with_mixed_operands_is_left_alone.
+Theorem a_product_with_a_nonliteral_is_left_alone : forall w l',
+  forallb is_num_lit (tl l') = false -> optimize_node w OMul l' = Some (VList true l').
+Proof. exact OptOnly.times_with_a_nonliteral_untouched. Qed.
+Print Assumptions a_product_with_a_nonliteral_is_left_alone.
+Theorem and_or_with_a_nonliteral_are_left_alone : forall w args,
+  forallb is_lit args = false ->
+  optimize (VList w (VOp OAnd :: args)) = VList w (VOp OAnd :: args) /\
+  optimize (VList w (VOp OOr :: args)) = VList w (VOp OOr :: args).
+Proof. exact OptOnly.and_or_with_a_nonliteral_untouched. Qed.
+Print Assumptions and_or_with_a_nonliteral_are_left_alone.
